@@ -3,10 +3,12 @@
 package main
 
 import (
+	"encoding/hex"
 	"fmt"
 	"strconv"
 	"strings"
 
+	"github.com/icon-project/goloop/btp"
 	"github.com/icon-project/goloop/btp/ntm"
 	"github.com/icon-project/goloop/common/codec"
 	"github.com/icon-project/goloop/common/crypto"
@@ -225,6 +227,8 @@ func (c29Runner) Step(t []string, o *Oracle) string {
 		return "bad-op"
 	}
 	switch t[0] {
+	case "mv", "dec", "pcfor":
+		return c29MapStep(t, o)
 	case "verify":
 		if len(t) != 5 || !c29PathOK(t[1]) {
 			return "bad-op"
@@ -433,6 +437,10 @@ func c29BadSig(g *Gen, vals []int, i, dh int) string {
 
 func c29Gen(g *Gen) {
 	for c := 0; c < g.N; c++ {
+		if g.Intn(3) == 0 {
+			c29GenMap(g)
+			continue
+		}
 		vals := c29GenVals(g)
 		n := len(vals)
 		dh := g.Intn(3)
@@ -511,4 +519,488 @@ func c29Gen(g *Gen) {
 		}
 		g.Emit("verify %s %d %s %s", c29Path(g, len(slots) <= n), dh, c29ValsStr(vals), ss)
 	}
+}
+
+// ---- btp/proofcontextmap.go through the real map ----
+
+type c29NTView struct {
+	uid string
+	pc  []byte
+}
+
+func (v *c29NTView) UID() string                  { return v.uid }
+func (v *c29NTView) NextProofContextHash() []byte { return nil }
+func (v *c29NTView) NextProofContext() []byte     { return v.pc }
+func (v *c29NTView) OpenNetworkIDs() []int64      { return nil }
+
+type c29StateView struct {
+	ids   []int64
+	views map[int64]*c29NTView
+}
+
+func (v *c29StateView) GetNetworkTypeIDs() ([]int64, error) { return v.ids, nil }
+func (v *c29StateView) GetNetworkView(nid int64) (btp.NetworkView, error) {
+	return nil, fmt.Errorf("not used")
+}
+func (v *c29StateView) GetNetworkTypeView(ntid int64) (btp.NetworkTypeView, error) {
+	return v.views[ntid], nil
+}
+
+type c29NTD struct {
+	module.NetworkTypeDigest
+	ntid int64
+	hash []byte
+}
+
+func (d *c29NTD) NetworkTypeID() int64           { return d.ntid }
+func (d *c29NTD) NetworkTypeSectionHash() []byte { return d.hash }
+
+type c29Digest struct {
+	module.BTPDigest
+	ntds []module.NetworkTypeDigest
+}
+
+func (d *c29Digest) NetworkTypeDigests() []module.NetworkTypeDigest { return d.ntds }
+
+type c29ProofList [][]byte
+
+func (l c29ProofList) NTSDProofCount() int      { return len(l) }
+func (l c29ProofList) NTSDProofAt(i int) []byte { return l[i] }
+
+type c29Entry struct {
+	ntid int64
+	uid  string
+	vals []int
+}
+
+func c29ParsePcm(s string) ([]c29Entry, bool) {
+	var es []c29Entry
+	if s == "_" {
+		return es, true
+	}
+	seen := map[int64]bool{}
+	for _, e := range strings.Split(s, ";") {
+		ps := strings.Split(e, ":")
+		if len(ps) != 3 || (ps[1] != "e" && ps[1] != "i") {
+			return nil, false
+		}
+		ntid, err := strconv.ParseInt(ps[0], 10, 64)
+		vals, ok := c29ParseVals(ps[2])
+		if err != nil || !ok || seen[ntid] {
+			return nil, false
+		}
+		seen[ntid] = true
+		uid := "eth"
+		if ps[1] == "i" {
+			uid = "icon"
+		}
+		es = append(es, c29Entry{ntid, uid, vals})
+	}
+	return es, true
+}
+
+func c29HexOpt(s string) ([]byte, bool) {
+	if s == "n" {
+		return nil, true
+	}
+	if s == "-" {
+		return []byte{}, true
+	}
+	b, err := hex.DecodeString(s)
+	return b, err == nil
+}
+
+func c29BuildMap(es []c29Entry) module.BTPProofContextMap {
+	view := &c29StateView{views: map[int64]*c29NTView{}}
+	for _, e := range es {
+		path := "ek"
+		if e.uid == "icon" {
+			path = "ik"
+		}
+		pc := c29Context(path+"b", e.vals)
+		bs := pc.Bytes()
+		if bs == nil {
+			bs = []byte{0xc1, 0xc0} // {Validators: []}: a registered context without validators
+		}
+		view.ids = append(view.ids, e.ntid)
+		view.views[e.ntid] = &c29NTView{uid: e.uid, pc: bs}
+	}
+	pcm, err := btp.NewProofContextMap(view)
+	if err != nil {
+		panic(err)
+	}
+	return pcm
+}
+
+func c29MapStep(t []string, o *Oracle) string {
+	switch t[0] {
+	case "dec":
+		if len(t) != 6 {
+			return "bad-op"
+		}
+		src, ok1 := c29HexOpt(t[1])
+		ntid, e1 := strconv.ParseInt(t[2], 10, 64)
+		height, e2 := strconv.ParseInt(t[3], 10, 64)
+		round, e3 := strconv.ParseInt(t[4], 10, 32)
+		h, ok2 := c29HexOpt(t[5])
+		if !ok1 || !ok2 || e1 != nil || e2 != nil || e3 != nil {
+			return "bad-op"
+		}
+		pc := c29Context("ekb", []int{1})
+		d := pc.NewDecision(src, ntid, height, int32(round), h)
+		o.Count("dec")
+		return hx(d.Bytes())
+	case "pcfor":
+		if len(t) != 3 {
+			return "bad-op"
+		}
+		es, ok := c29ParsePcm(t[1])
+		ntid, err := strconv.ParseInt(t[2], 10, 64)
+		if !ok || err != nil {
+			return "bad-op"
+		}
+		pc, err := c29BuildMap(es).ProofContextFor(ntid)
+		var want *c29Entry
+		for i := range es {
+			if es[i].ntid == ntid {
+				want = &es[i]
+			}
+		}
+		if err != nil {
+			o.Check(want == nil, "c29-map-registered-type-not-found", "ProofContextFor(%d) fails although registered", ntid)
+			return "err-notfound"
+		}
+		o.Check(want != nil && pc.UID() == want.uid, "c29-map-wrong-context", "ProofContextFor(%d) returned context of %s", ntid, pc.UID())
+		u := 0
+		if pc.UID() == "icon" {
+			u = 1
+		}
+		return fmt.Sprintf("ok %d:%d", u, pc.NewProof().ValidatorCount())
+	}
+	// mv <pcm> <src> <height> <round> <digests> <proofs>
+	if len(t) != 7 {
+		return "bad-op"
+	}
+	es, ok := c29ParsePcm(t[1])
+	src, ok1 := c29HexOpt(t[2])
+	height, e2 := strconv.ParseInt(t[3], 10, 64)
+	round, e3 := strconv.ParseInt(t[4], 10, 32)
+	if !ok || !ok1 || e2 != nil || e3 != nil {
+		return "bad-op"
+	}
+	byNtid := map[int64]*c29Entry{}
+	for i := range es {
+		byNtid[es[i].ntid] = &es[i]
+	}
+	type dg struct {
+		ntid int64
+		hash []byte
+	}
+	var ds []dg
+	if t[5] != "_" {
+		for _, e := range strings.Split(t[5], ";") {
+			ps := strings.Split(e, ":")
+			if len(ps) != 2 {
+				return "bad-op"
+			}
+			ntid, err := strconv.ParseInt(ps[0], 10, 64)
+			h, ok := c29HexOpt(ps[1])
+			if err != nil || !ok {
+				return "bad-op"
+			}
+			ds = append(ds, dg{ntid, h})
+		}
+	}
+	pcm := c29BuildMap(es)
+	anyPC := c29Context("ekb", []int{1})
+	icoPC := c29Context("ikb", []int{1})
+	// decision hash of digest entry j (module of its registered context, eth if none)
+	dhash := func(j int, plus bool) []byte {
+		hgt := height
+		if plus {
+			hgt++
+		}
+		pc := anyPC
+		if e := byNtid[ds[j].ntid]; e != nil && e.uid == "icon" {
+			pc = icoPC
+		}
+		return pc.NewDecision(src, ds[j].ntid, hgt, int32(round), ds[j].hash).Hash()
+	}
+	type slotInfo struct {
+		kind byte
+		k, j int
+		plus bool
+	}
+	var proofs c29ProofList
+	var infos [][]slotInfo
+	var undec []bool
+	if t[6] != "_" {
+		for _, ptxt := range strings.Split(t[6], ";") {
+			if ptxt == "X" {
+				proofs = append(proofs, []byte{0xc1})
+				infos = append(infos, nil)
+				undec = append(undec, true)
+				continue
+			}
+			var sigs []*crypto.Signature
+			var inf []slotInfo
+			if ptxt != "E" {
+				for _, sl := range strings.Split(ptxt, ",") {
+					switch {
+					case sl == "-":
+						sigs = append(sigs, nil)
+						inf = append(inf, slotInfo{kind: '-'})
+					case sl == "xv" || sl == "xr" || sl == "xs":
+						x, _ := c29ParseSig(sl)
+						sigs = append(sigs, x.sig)
+						inf = append(inf, slotInfo{kind: 'x'})
+					case len(sl) > 1 && sl[0] == 's':
+						body := sl[1:]
+						plus := strings.HasSuffix(body, "+")
+						body = strings.TrimSuffix(body, "+")
+						ps := strings.Split(body, "d")
+						if len(ps) != 2 {
+							return "bad-op"
+						}
+						k, e1 := strconv.ParseUint(ps[0], 10, 16)
+						j, e2 := strconv.ParseUint(ps[1], 10, 16)
+						if e1 != nil || e2 != nil || int(j) >= len(ds) {
+							return "bad-op"
+						}
+						sg, err := crypto.NewSignature(dhash(int(j), plus), c29Key(int(k)))
+						if err != nil {
+							panic(err)
+						}
+						sigs = append(sigs, sg)
+						inf = append(inf, slotInfo{'s', int(k), int(j), plus})
+					default:
+						return "bad-op"
+					}
+				}
+			}
+			var x struct{ Signatures []*crypto.Signature }
+			x.Signatures = sigs
+			if sigs == nil {
+				x.Signatures = []*crypto.Signature{}
+			}
+			proofs = append(proofs, codec.MustMarshalToBytes(&x))
+			infos = append(infos, inf)
+			undec = append(undec, false)
+		}
+	}
+	if len(proofs) >= 250 {
+		return "bad-op"
+	}
+	ntds := make([]module.NetworkTypeDigest, len(ds))
+	for i, d := range ds {
+		ntds[i] = &c29NTD{ntid: d.ntid, hash: d.hash}
+	}
+	verr := pcm.Verify(src, height, int32(round), &c29Digest{ntds: ntds}, proofs)
+
+	// ---- property oracle from the symbolic input ----
+	var reg []int // indices of digest entries with a registered context
+	for j, d := range ds {
+		if byNtid[d.ntid] != nil {
+			reg = append(reg, j)
+		}
+	}
+	expect, why := true, ""
+	if len(reg) != len(proofs) {
+		expect, why = false, "proof-count"
+	} else {
+		for k, j := range reg {
+			e := byNtid[ds[j].ntid]
+			if undec[k] {
+				expect, why = false, "undecodable-proof"
+				break
+			}
+			good := 0
+			for i, sl := range infos[k] {
+				if sl.kind == '-' {
+					continue
+				}
+				// a signature counts only if it was made over THIS entry's decision (same type id and
+				// section hash, same module) by the validator at slot i of THIS type's context
+				sameDecision := sl.kind == 's' && !sl.plus && ds[sl.j].ntid == ds[j].ntid &&
+					string(ds[sl.j].hash) == string(ds[j].hash) && (ds[sl.j].hash == nil) == (ds[j].hash == nil)
+				if !sameDecision || i >= len(e.vals) || e.vals[i] < 0 || e.vals[i] != sl.k {
+					expect, why = false, "signature-not-for-this-type-or-validator"
+					break
+				}
+				good++
+			}
+			if !expect {
+				break
+			}
+			if 3*good <= 2*len(e.vals) {
+				expect, why = false, "no-quorum-in-own-context"
+				break
+			}
+		}
+	}
+	if verr == nil {
+		o.Count("mv-ok")
+		o.Check(expect, "c29-map-accepted-"+why, "vote accepted although %s", why)
+		return "ok"
+	}
+	o.Check(!expect, "c29-map-rejected-valid-vote", "valid vote rejected: %v", verr)
+	msg := verr.Error()
+	full := fmt.Sprintf("%+v", verr) // includes the wrapped cause
+	idx := func(tag string) string {
+		p := strings.Index(msg, tag)
+		q := p + len(tag)
+		e := q
+		for e < len(msg) && msg[e] >= '0' && msg[e] <= '9' {
+			e++
+		}
+		return msg[q:e]
+	}
+	switch {
+	case strings.Contains(msg, "invalid len"):
+		o.Count("mv-err-len")
+		return "err-len"
+	case strings.Contains(msg, "new proof fail voteIndex="):
+		o.Count("mv-err-newproof")
+		return "err-newproof " + idx("new proof fail voteIndex=")
+	case strings.Contains(msg, "verify fail voteIndex="):
+		cls := c29ErrClass(fmt.Errorf("%s", full))
+		o.Count("mv-" + cls)
+		return "err-verify " + idx("verify fail voteIndex=") + " " + cls
+	}
+	return "err-unknown"
+}
+
+// ---- generator for the map ops ----
+
+func c29GenMap(g *Gen) {
+	if g.Intn(5) == 0 {
+		src := []string{"n", "-", "3078", "30783132", hx(g.Bytes(1 + g.Intn(60)))}[g.Intn(5)]
+		h := []string{"n", "-", hx(g.Bytes(32)), hx(g.Bytes(g.Pick(1, 31, 55, 56, 57, 60)))}[g.Intn(4)]
+		iv := func() int64 {
+			switch g.Intn(4) {
+			case 0:
+				return int64(g.Pick(0, 1, 127, 128, 255, 256, 32767, 32768, -1, -128, -129))
+			case 1:
+				return int64(g.Intn(1000))
+			case 2:
+				return int64(g.R.Uint64() >> uint(g.Intn(64)))
+			}
+			return -int64(g.R.Uint64() >> uint(1+g.Intn(63)))
+		}
+		g.Emit("dec %s %d %d %d %s", src, iv(), iv(), int32(iv()), h)
+		return
+	}
+	// two or three network types with different validator sets
+	nt := 1 + g.Intn(3)
+	var es []c29Entry
+	var etxt []string
+	for i := 0; i < nt; i++ {
+		n := g.Pick(1, 2, 3, 4, 4, 5, 7)
+		vals := make([]int, n)
+		base := 10 + 10*i
+		if g.Intn(4) == 0 {
+			base = 10 // same validators for several types: only the decision separates them
+		}
+		for j := range vals {
+			vals[j] = base + j
+		}
+		uid := "ei"[g.Intn(2)]
+		e := c29Entry{int64(1 + i*g.Pick(1, 1, 3)), map[byte]string{'e': "eth", 'i': "icon"}[uid], vals}
+		dup := false
+		for _, x := range es {
+			dup = dup || x.ntid == e.ntid
+		}
+		if dup {
+			continue
+		}
+		es = append(es, e)
+		etxt = append(etxt, fmt.Sprintf("%d:%c:%s", e.ntid, uid, c29ValsStr(vals)))
+	}
+	if g.Intn(8) == 0 {
+		g.Emit("pcfor %s %d", strings.Join(etxt, ";"), g.Pick(0, 1, 2, 3, 4, 7, 99))
+		return
+	}
+	// digest: the registered types (sometimes one missing), plus sometimes an unregistered type
+	type dg struct {
+		ntid int64
+		h    string
+	}
+	var ds []dg
+	hashes := []string{hx(g.Bytes(32)), hx(g.Bytes(32)), "n"}
+	for _, e := range es {
+		if g.Intn(8) != 0 {
+			ds = append(ds, dg{e.ntid, hashes[g.Pick(0, 0, 0, 1, 2)]})
+		}
+	}
+	if g.Intn(3) == 0 {
+		pos := g.Intn(len(ds) + 1)
+		ds = append(ds[:pos], append([]dg{{int64(50 + g.Intn(3)), hashes[g.Intn(2)]}}, ds[pos:]...)...)
+	}
+	byNtid := map[int64]*c29Entry{}
+	for i := range es {
+		byNtid[es[i].ntid] = &es[i]
+	}
+	var ptxt []string
+	mut := g.Intn(10)
+	for j, d := range ds {
+		e := byNtid[d.ntid]
+		if e == nil {
+			if mut == 0 {
+				ptxt = append(ptxt, fmt.Sprintf("s10d%d", j)) // a proof for the unregistered type
+			}
+			continue
+		}
+		n := len(e.vals)
+		want := 2*n/3 + 1
+		if mut == 1 && g.Intn(2) == 0 {
+			want-- // no quorum
+		}
+		if g.Intn(3) == 0 {
+			want = n
+		}
+		sj := j
+		if mut == 2 && len(ds) > 1 {
+			sj = (j + 1) % len(ds) // signed for another type's decision
+		}
+		slots := make([]string, n)
+		for i := range slots {
+			slots[i] = "-"
+		}
+		for _, i := range g.R.Perm(n)[:want] {
+			slots[i] = fmt.Sprintf("s%dd%d", e.vals[i], sj)
+			if mut == 3 && g.Intn(3) == 0 {
+				slots[i] += "+" // other height
+			}
+		}
+		if mut == 4 && n > 0 {
+			slots[g.Intn(n)] = []string{"xr", "xs", "xv", fmt.Sprintf("s999d%d", j)}[g.Intn(4)]
+		}
+		p := strings.Join(slots, ",")
+		if mut == 5 && g.Intn(2) == 0 {
+			p = "X"
+		}
+		ptxt = append(ptxt, p)
+	}
+	if mut == 6 && len(ptxt) > 1 {
+		ptxt[0], ptxt[len(ptxt)-1] = ptxt[len(ptxt)-1], ptxt[0] // proofs in the wrong order
+	}
+	if mut == 7 && len(ptxt) > 0 {
+		if g.Intn(2) == 0 {
+			ptxt = ptxt[:len(ptxt)-1]
+		} else {
+			ptxt = append(ptxt, ptxt[0])
+		}
+	}
+	dtxt := make([]string, len(ds))
+	for i, d := range ds {
+		dtxt[i] = fmt.Sprintf("%d:%s", d.ntid, d.h)
+	}
+	join := func(xs []string) string {
+		if len(xs) == 0 {
+			return "_"
+		}
+		return strings.Join(xs, ";")
+	}
+	src := []string{"n", "3078", hx(g.Bytes(6))}[g.Intn(3)]
+	g.Emit("mv %s %s %d %d %s %s", join(etxt), src, g.Pick(1, 100, 1<<40), g.Pick(0, 1, 7), join(dtxt), join(ptxt))
 }
